@@ -8,6 +8,7 @@ import (
 	"strings"
 	"sync"
 	"unicode"
+	"unicode/utf8"
 )
 
 // tokenType defines a unique type of token
@@ -357,13 +358,18 @@ func (l *lexer) tryLexOperator() bool {
 		if strings.HasPrefix(l.input[l.pos+1:], "}") {
 			return false
 		}
-	} else if isAlpha(op) {
-		// If operator is alphabetic (such as "in" or "is"),
-		// we avoid matching "include" or functions like "is_currently_on"
-		// For such operators to be valid, they need to have a space after.
-		lenOp := len(op)
-		if (l.pos+lenOp+1) <= len(l.input) && l.input[l.pos+lenOp:l.pos+lenOp+1] != " " {
-			return false
+	} else if isAlpha(op[len(op)-1:]) {
+		// If the operator ends in a letter (such as "in", "is" or "b-and"),
+		// we avoid matching "include" or functions like "is_currently_on".
+		// For such operators to be valid, a name must not continue after them.
+		if next, _ := utf8.DecodeRuneInString(l.input[l.pos+len(op):]); len(l.input) > l.pos+len(op) && isName(string(next)) {
+			// "is notable" is not "is not" followed by "able": the first
+			// word may still be an operator on its own.
+			p := strings.Index(op, " ")
+			if p < 0 || !operatorMatcher.MatchString(op[:p]+" ") {
+				return false
+			}
+			op = op[:p]
 		}
 	} else if op == delimTrimWhitespace {
 		rest := l.input[l.pos+1:]
